@@ -134,7 +134,7 @@ CHECKS["C17"]["text"] += " wire-cross-process: every executor message class and 
 CHECKS["C18"]["text"] += " Results include a 900 kB dataset (base64 text longer than a mebi-character)."
 CHECKS["C19"]["text"] += " A pre-filled task may be specialised again: a second with_values binds the position given in that call."
 CHECKS["C13"]["text"] += " expand-two-axes: the same action expanded along its first internal axis and then, in the same process, along its last one counted from the end."
-CHECKS["C15"]["text"] += " stack also with negative axes and with arguments of different rank (broadcast first); take with the axis counted from the end; 5, 6 and 9 arguments for sum/prod/mean; equal narrow integer dtypes at the type boundary in the dtype family."
+CHECKS["C15"]["text"] += " stack also with negative axes and with arguments of different rank (broadcast first; on the xarray backend broadcast by dimension name, the lower-rank operand on either dimension, axes -3..2); take with the axis counted from the end; 5, 6 and 9 arguments for sum/prod/mean; equal narrow integer dtypes at the type boundary in the dtype family."
 CHECKS["C09"]["text"] += " The store records, and tells readers, exactly the length the writer allocated."
 CHECKS["C01"]["text"] += " A retried notice may be overtaken by the next one of the same executor (overtake shards); running a task must leave its task description in the job unchanged."
 CHECKS["C08"]["text"] += " shm-evict-liveness (shared with C09): eviction rounds in which several idle datasets are paged out at once; two allocations in a row; no two datasets share a reader table."
